@@ -15,7 +15,7 @@ EXPLANATION = (
     "return between the resolver call and the restore, so a failed resolver call leaves the evaluator usable. C17/R2 (WHO): the conn "
     "field is accessed only in RpslEvaluator::new and with_connection, every resolver reaches the connection through "
     "with_connection, and nothing is mem::forget-ed, so irrc's drain-on-drop of a partly consumed pipeline runs before the connection "
-    "is used again. NOT decided (not applicable): that responses are attributed to the right query and that a partly consumed "
+    "is used again. C17/R3: the evaluator carries nothing but the connection from one evaluation to the next — every other field of RpslEvaluator is never written, mutably borrowed or moved out after construction and has no interior mutability, and the library has no statics. NOT decided (not applicable): that responses are attributed to the right query and that a partly consumed "
     "pipeline is drained correctly — irrc-0.1.0's Pipeline/Drop logic over run-time byte streams."
 )
 
@@ -110,3 +110,57 @@ def run(ctx):
                 if not x.macro and x.is_fn("std::mem::forget", "ManuallyDrop::<T>::new", "Box::<T>::leak"):
                     chk.instance("C17/R2", "no pipeline / response value is leaked", name, x.loc(), holds=False,
                                  key="C17/R2 leak-in %s" % T.strip_generics(name))
+    r3_stateless(chk, fx)
+
+
+def r3_stateless(chk, fx):
+    """An evaluation's result may depend on the expression and the IRR only.  The evaluator therefore must not carry anything from one
+    evaluation to the next except the connection: every other field of RpslEvaluator has to be immutable after construction, and the
+    library must have no mutable statics."""
+    adt = [it for it in fx.item_list if it["kind"] == "Struct" and it.get("qdef") == "bgpfu::query::RpslEvaluator"]
+    if len(adt) != 1:
+        raise F.AnchorLost("struct RpslEvaluator")
+    fields = [f["name"] for v in adt[0]["variants"] for f in v["fields"]]
+    chk.floor("C17/R3 RpslEvaluator fields", len(fields), 1)
+    others = [f for f in fields if f != "conn"]
+    chk.instance("C17/R3", "RpslEvaluator holds the connection (fields: %s)" % fields, adt[0]["qdef"], loc_of(adt[0].get("sp")), holds="conn" in fields,
+                 key="C17/R3 RpslEvaluator conn-field")
+    writes = {f: [] for f in others}
+    for name, body in fx.mir.items():
+        if body.crate != "bgpfu" or name.startswith("bgpfu::query::RpslEvaluator::new"):
+            continue
+        for bi, bl in enumerate(body.blocks):
+            for s in bl["stmts"]:
+                if s["k"] != "assign":
+                    continue
+                cands = []
+                if s["pl"].get("p"):
+                    cands.append(s["pl"])
+                rv = s["rv"]
+                if rv["k"] == "ref" and rv.get("bk") != "shared":
+                    cands.append(rv["pl"])
+                if rv["k"] == "rawptr":
+                    cands.append(rv["pl"])
+                for o in body.rv_operands(rv)[0]:
+                    if o.get("c") == "move" and o["pl"].get("p"):
+                        cands.append(o["pl"])
+                for pl in cands:
+                    for f in others:
+                        if ("." + f) in (pl.get("p") or []) and "RpslEvaluator" in body.local_ty(pl["l"]):
+                            writes[f].append((name, loc_of(s.get("sp"))))
+    for f in others:
+        w = writes[f]
+        chk.instance("C17/R3", "RpslEvaluator.%s is never written / mutably borrowed / moved out after construction" % f, adt[0]["qdef"],
+                     w[0][1] if w else loc_of(adt[0].get("sp")), holds=not w, key="C17/R3 RpslEvaluator state-carried-in .%s" % f,
+                     detail=("mutated in %s: what one evaluation leaves there is seen by the next, so a result can depend on what was evaluated "
+                             "before on this evaluator" % sorted({x[0] for x in w})[:3]) if w else None)
+    # interior mutability hidden behind a shared borrow
+    cellish = ("Cell<", "RefCell<", "Mutex<", "RwLock<", "Atomic", "OnceCell<", "OnceLock<", "UnsafeCell<")
+    for v in adt[0]["variants"]:
+        for f in v["fields"]:
+            if f["name"] != "conn":
+                chk.instance("C17/R3", "RpslEvaluator.%s has no interior mutability (%s)" % (f["name"], f["ty"]), adt[0]["qdef"], loc_of(adt[0].get("sp")),
+                             holds=not any(c in f["ty"] for c in cellish), key="C17/R3 RpslEvaluator interior-mutability .%s" % f["name"])
+    statics = [it for it in fx.item_list if it["kind"] == "Static" and it.get("crate") == "bgpfu" and "__CALLSITE" not in it.get("qdef", "")]
+    chk.instance("C17/R3", "the library has no statics besides tracing call-sites (%d found)" % len(statics), "bgpfu", None, holds=not statics,
+                 key="C17/R3 bgpfu statics %s" % sorted(it["qdef"] for it in statics)[:3])
